@@ -89,6 +89,7 @@ class Run(object):
         self.mc_states = 0
         self.mc_transitions = 0
         self.divergences = 0
+        self.triggers = {}         # situation (Props.Triggers) -> number of leaves on whose path it occurred
 
     def close(self):
         shutil.rmtree(self.tmp, ignore_errors=True)
@@ -255,6 +256,11 @@ class Run(object):
             os.unlink(path)
             vs = tlc.verdicts(res["out"], "V")
             ks = tlc.verdicts(res["out"], "K")
+            if self.module == "Trace":
+                import re as _re
+                for t in tlc._tuples(_re.sub(r'<<\s+"E"', '<<"E"', res["out"]), "E"):    # TLC wraps long sets over lines
+                    for name in _re.findall(r'"([a-z_]+)"', t):
+                        self.triggers[name] = self.triggers.get(name, 0) + 1
             expected = self._expected_states(b, [v for v in vs if v[3][:3] in own] + ks)
             if res["rc"] != 0 or res["distinct"] != expected:
                 self.machinery.append("tlc rc=%s distinct=%s expected=%s\n%s" % (
@@ -369,6 +375,11 @@ class Run(object):
             elif self.prop in self.TT_THOROUGH and self.tier != "quick":
                 self.add_test_traces(("orquesta/tests",))
         viol, known = self.classify()
+        # vacuity: the situations this property's clauses are about must have occurred in this run
+        if self.results and self.prop in REQUIRED:
+            missing = [t for t in REQUIRED[self.prop] if not self.triggers.get(t)]
+            if missing:
+                self.machinery.append("vacuous run: situation(s) %s never occurred in the explored traces" % missing)
         lines = []
         seen_kf = {}
         for k in known:
@@ -413,6 +424,7 @@ class Run(object):
             "rule": rule, "samples": self.samples[:5],
             "truncated_trees": self.truncated,
             "clauses": list(self.clauses),
+            "situations_exercised": dict(sorted(self.triggers.items())),
             "known_findings_seen": sorted({k["kf"] for k in known}),
             "violations": len(viol),
             "other_clause_failures": self.other_clause_failures,
@@ -438,6 +450,28 @@ class Run(object):
         print("OK property=%s tier=%s trees=%d steps=%d tlc_states=%d known=%d wall=%.1fs" % (
             self.prop, self.tier, self.trees, self.nodes, self.states, len(known), time.time() - self.t0))
         return 0
+
+
+# situations (Props.Triggers) without which a property's clauses would hold vacuously
+REQUIRED = {
+    "C01": ["offer", "new_exec", "completion", "wf_succeeded", "cleanup_due"],
+    "C02": ["wf_succeeded", "wf_failed", "wf_paused_or_canceled", "wf_pausing_or_canceling"],
+    "C03": ["quiescent", "pause_requested", "cancel_requested", "quiescent_after_rerun"],
+    "C04": ["after_terminal", "offer_query_after_terminal", "report_after_terminal", "request_rejected"],
+    "C05": ["completion", "published"],
+    "C06": ["offer", "published", "output_rendered", "join_offer"],
+    "C07": ["join_offer", "join_started", "partial_join_at_rest"],
+    "C08": ["completion", "wf_succeeded", "wf_failed"],
+    "C09": ["held_by_pause", "pause_requested", "resumed_query"],
+    "C10": ["cancel_requested", "canceled_render"],
+    "C11": ["expr_error", "wf_failed"],
+    "C12": ["item_offer", "item_window_partial", "items_task_completed"],
+    "C13": ["retried", "retry_offer"],
+    "C15": ["completion", "wf_succeeded", "wf_failed"],
+    "C17": ["rerun_accepted", "rerun_rejected", "new_exec_after_rerun", "quiescent_after_rerun"],
+    "C18": ["record_decided", "published", "rerun_accepted"],
+    "C19": ["query_ok"],
+}
 
 
 def _counterexample(out):
